@@ -147,6 +147,11 @@ def run_task(task):
                         continue
                     e = '%s%s%s' % (a, op, b)
                     check('lit:shape', 'x=' + e, res, sets()[:1])
+                    if op == '+':
+                        for tmpl in ('x={e}<3', 'x=1<{e}', 'x=0<1<{e}', 'x=0<{e}<9', 'x=1=={e}', 'x={e} is 1', 'x=1 in ({e},)', 'x=1 and {e}', 'x={e} or 1', 'x=not {e}',
+                                     'x=1 if {e} else 2', 'x={e} if 1 else 2', 'x=(1,2)[{e}]', 'x=({e},)[0]', "x='%d'%({e})", 'x=[1,2][{e}:]', 'x={{1:2}}[{e}]', "x=f'{{{e}}}'",
+                                     "x=f'{{1:{{{e}}}}}'", 'x=1 .__add__({e})', 'x=(1).real+{e}', 'x=-({e})**2', 'x=2**{e}', 'x=divmod(1,{e})'):
+                            check('lit:context', tmpl.replace('{e}', '(' + e + ')') if '{{' not in tmpl else tmpl.format(e='(' + e + ')'), res, sets()[:1])
                     if op in ('+', '*', '-'):
                         check('lit:shape', 'x=(%s)%s3' % (e, op), res, sets()[:1])
                         check('lit:shape', 'x=3%s(%s)' % (op, e), res, sets()[:1])
